@@ -283,7 +283,7 @@ DoneOK(d) ==
   \* --- C03: vector lengths are the user's n and m
   /\ P("C03") => d.lens = <<d.n, d.m, d.m>>
   \* --- C02: objective values are NaN exactly for infeasibility verdicts
-  /\ P("C02") => (infeas => (IsNaN(d.obj) /\ IsNaN(d.obj_d)))
+  /\ (P("C02") \/ P("C03")) => (infeas => (IsNaN(d.obj) /\ IsNaN(d.obj_d)))
   \* --- C03: the reported figures are those of info at the end (bit for bit) ...
   /\ P("C03") =>
        /\ ~infeas => (FSame(d.obj, info.cost_p) /\ FSame(d.obj_d, info.cost_d))
